@@ -124,6 +124,31 @@ pub fn exec(line: &str) -> (String, Option<String>, bool) {
                 Err(m) => ("panic".into(), Some(format!("[lerp-panic] array lerp panicked: {m}")), true),
             }
         }
+        "flerp" => {
+            // float impls: never panic for ANY pair of values (NaN, infinities included); the value is compared with the model
+            let s = f32::from_bits(t[5].parse().unwrap());
+            let r = if t[2] == "f32" {
+                let (a, b) = (f32::from_bits(t[3].parse().unwrap()), f32::from_bits(t[4].parse().unwrap()));
+                catch(move || a.lerp(&b, s)).map(|v| if v.is_nan() { "nan".to_string() } else { v.to_bits().to_string() })
+            } else {
+                let (a, b) = (f64::from_bits(t[3].parse().unwrap()), f64::from_bits(t[4].parse().unwrap()));
+                catch(move || a.lerp(&b, s)).map(|v| if v.is_nan() { "nan".to_string() } else { v.to_bits().to_string() })
+            };
+            match r {
+                Ok(v) => (v, None, true),
+                Err(m) => ("panic".into(), Some(format!("[lerp-panic] {} lerp(bits {}, bits {}, {s}) panicked: {m}", t[2], t[3], t[4])), true),
+            }
+        }
+        "flerparr" => {
+            let p = |s: &str| s.split(',').map(|x| f32::from_bits(x.parse::<u32>().unwrap())).collect::<Vec<_>>();
+            let (a, b) = (p(t[2]), p(t[3]));
+            let s = f32::from_bits(t[4].parse().unwrap());
+            let (aa, bb) = ([a[0], a[1], a[2]], [b[0], b[1], b[2]]);
+            match catch(move || aa.lerp(&bb, s)) {
+                Ok(v) => (v.iter().map(|x| if x.is_nan() { "nan".to_string() } else { x.to_bits().to_string() }).collect::<Vec<_>>().join(","), None, true),
+                Err(m) => ("panic".into(), Some(format!("[lerp-panic] [f32; 3] lerp({a:?}, {b:?}, {s}) panicked: {m}")), true),
+            }
+        }
         "lerpgrid" => {
             let (ty, a, k) = (t[2], t[3].parse::<i128>().unwrap(), t[4].parse::<u32>().unwrap());
             let (lo, hi) = range(ty);
@@ -355,6 +380,43 @@ pub fn generate(args: &Args) -> Vec<String> {
         let s = (rng.next() >> 40) as f32 / (1u64 << 24) as f32;
         l.push(format!("num lerparr i32 {},{},{} {},{},{} {}", v[0], v[1], v[2], v[3], v[4], v[5], s.to_bits()));
     }
+    // (3c) float impls: the full cross product of special values (NaNs of both signs, infinities, zeros, extremes,
+    // subnormals) with the special scalars, then random bit patterns
+    let sp32: Vec<f32> = vec![f32::NAN, -f32::NAN, f32::from_bits(0x7F80_0001), f32::INFINITY, f32::NEG_INFINITY, 0.0, -0.0, 1.0, -1.0, f32::MAX, f32::MIN,
+        f32::MIN_POSITIVE, -f32::MIN_POSITIVE, f32::from_bits(1), f32::from_bits(0x8000_0001), 16_777_216.0, -16_777_217.0, 0.1, 1e30, -1e30];
+    for a in &sp32 {
+        for b in &sp32 {
+            for s in [0.0f32, 1.0, 0.5, 1.0 / 3.0, f32::MIN_POSITIVE, 0.999_999_94] {
+                l.push(format!("num flerp f32 {} {} {}", a.to_bits(), b.to_bits(), s.to_bits()));
+                l.push(format!("num flerp f64 {} {} {}", (*a as f64).to_bits(), (*b as f64).to_bits(), s.to_bits()));
+            }
+        }
+    }
+    for (a, b) in [(f64::MAX, f64::MIN), (f64::MIN_POSITIVE, -f64::MIN_POSITIVE), (f64::from_bits(1), f64::MAX), (1e308, -1e308), (f64::NAN, f64::NAN), (-f64::NAN, f64::INFINITY)] {
+        for s in [0.0f32, 1.0, 0.5, 1.0 / 3.0] {
+            l.push(format!("num flerp f64 {} {} {}", a.to_bits(), b.to_bits(), s.to_bits()));
+        }
+    }
+    for i in 0..n / 6 {
+        let s = match rng.below(4) {
+            0 => *rng.pick(&scalars),
+            _ => (rng.next() >> 40) as f32 / (1u64 << 24) as f32,
+        };
+        let mut v32 = |rng: &mut Rng| if rng.chance(1, 4) { *rng.pick(&sp32) } else { f32::from_bits(rng.next() as u32) };
+        match i % 3 {
+            0 => l.push(format!("num flerp f32 {} {} {}", v32(&mut rng).to_bits(), v32(&mut rng).to_bits(), s.to_bits())),
+            1 => {
+                let mut v64 = |rng: &mut Rng| if rng.chance(1, 4) { *rng.pick(&sp32) as f64 } else { f64::from_bits(rng.next()) };
+                l.push(format!("num flerp f64 {} {} {}", v64(&mut rng).to_bits(), v64(&mut rng).to_bits(), s.to_bits()))
+            }
+            _ => {
+                let v: Vec<u32> = (0..6).map(|_| v32(&mut rng).to_bits()).collect();
+                // the same slot special on both sides in a third of the arrays
+                let w = if rng.chance(1, 3) { let k = rng.below(3); let mut w = v.clone(); w[3 + k] = w[k]; w } else { v };
+                l.push(format!("num flerparr {},{},{} {},{},{} {}", w[0], w[1], w[2], w[3], w[4], w[5], s.to_bits()))
+            }
+        }
+    }
     // (4) easing: endpoints and special points individually, grids as digests
     for (name, _) in ease_table() {
         for x in [0.0f32, 1.0, 0.5, f32::EPSILON, 1.0 - f32::EPSILON, 1.0 / 2.75, 2.0 / 2.75, 2.5 / 2.75, f32::MIN_POSITIVE, 1e-30] {
@@ -388,7 +450,7 @@ pub fn run(args: &Args) {
         let mut it = l.split(' ');
         let (op, ty) = (it.nth(1).unwrap_or("?"), it.next().unwrap_or("?"));
         sink.count(&format!("op:{op}"));
-        if op.starts_with("lerp") {
+        if op.starts_with("lerp") || op == "flerp" {
             sink.count(&format!("type:{ty}"));
         }
         if obs.starts_with("panic") {
